@@ -90,7 +90,10 @@ Mech(f) ==
 (* documented preconditions on the arguments *)
 Positive(q) == q[1] > 0
 Admissible(f, p) ==
-    /\ \A k \in DOMAIN p : k \in {"prod", "p", "t0"} \/ Positive(p[k])       \* prod, p >= 0
+    \* degenerate but legal: no initial product, no backward reaction (kb = 0), an empty tank at the start
+    \* (r = 0), a feed without reactant or product (fr = 0, fp = 0); forward constants, the reactant
+    \* amounts of the batch forms and the feed rate stay positive
+    /\ \A k \in DOMAIN p : k \in {"prod", "p", "t0", "kb", "r", "fr", "fp"} \/ Positive(p[k])
     /\ \A k \in DOMAIN p : p[k][1] >= 0
     /\ (f = "binary_irrev" /\ {"major", "minor"} \subseteq DOMAIN p) => p["major"] # p["minor"]
        \* "major: the more abundant reactant": equal amounts are outside the documented domain
